@@ -77,6 +77,11 @@ def ratioCols : List (String × String × String) :=
      ("sigmavrad" ++ c, "sigmavrad_to_sigmav3d" ++ c ++ "_i16", "sigmav3d" ++ c),
      ("sigmavtan" ++ c, "sigmavtan_to_sigmav3d" ++ c ++ "_i16", "sigmav3d" ++ c)])
 
+/-- compressed unit-box lengths that are not relative to another column: (column, its int16 raw column) —
+"sqrt( Eigenvalues of the weighted moment of inertia tensor )", stored as int16 scaled to 32000 -/
+def scaledLengthCols : List (String × String) :=
+  coms.map (fun c => ("sigman" ++ c, "sigman" ++ c ++ "_i16"))
+
 /-- the documented int16 scale -/
 def int16Scale : Nat := 32000
 
